@@ -173,11 +173,13 @@ fn build_add(lhs: &AstNode, rhs: &AstNode) -> Result<Evaluator> {
 
 /// Text of an operand in a diagnostic message. The history a null operand carries is not repeated,
 /// it would double the length of the message with every operation applied to the result.
-fn operand_text(value: &Value) -> String {
-  if value.is_null() {
-    "null".to_string()
-  } else {
-    value.to_string()
+pub(crate) fn operand_text(value: &Value) -> String {
+  match value {
+    Value::Null(_) => "null".to_string(),
+    // (neither the history of a null item of a list nor of a null entry of a context)
+    Value::List(items) => format!("[{}]", items.as_vec().iter().map(operand_text).collect::<Vec<String>>().join(", ")),
+    Value::Context(context) => format!("{{{}}}", context.iter().map(|(name, entry)| format!("{}: {}", name, operand_text(entry))).collect::<Vec<String>>().join(", ")),
+    other => other.to_string(),
   }
 }
 
